@@ -571,6 +571,11 @@ def c10_container_case(res, case):
         "whole_then_index": (t0, lambda t: ab.tuple((t, t[1] * 2.0, t[0:2]))),
         "whole_then_index_list": ([A_(2), A_(2), A_(2)], lambda t: ab.list([t, t[0], t[2] * 3.0])),
         "whole_then_key_dict": ({"a": A_(2), "b": A_(3)}, lambda d: ab.tuple((d, d["a"] * 2.0, d["b"]))),
+        # + between a differentiated list / tuple and a plain one (either side): the input container itself
+        # must come through unchanged (same length, same leaves)
+        "list_plus_plain": ([A_(2), A_(2), A_(2)], lambda t: ab.tuple(((t + [2.0])[0], (t + [3.0, 4.0])[1] * 2.0, t[2], (t + [5.0])[3] * t[0]))),
+        "plain_plus_list": ([A_(2), A_(2)], lambda t: ab.tuple((([1.5] + t)[1], ([2.5, 3.5] + t)[3] * 2.0, ([0.5] + t)[0] * t[1]))),
+        "tuple_plus_plain": ((A_(2), A_(2)), lambda t: ab.tuple(((t + (2.0,))[0], ((1.0, 2.0) + t)[3] * 2.0, (t + t)[2]))),
         "inner_whole_then_index": (t0, lambda t: (lambda u: ab.tuple((u, u[0] * 2.0, u[1])))(ab.tuple((t[0] * 1.5, t[1], t[3])))),
     }
     x0, f = progs[tmpl]
@@ -585,10 +590,14 @@ def c10_container_case(res, case):
             for a in foreign:
                 a.flags.writeable = not frozen
             hashes = [vhash(a) for a in foreign]
+            hx0 = (vhash(x0), repr(common.sdesc(x0)), [id(l) for l in common.leaves(x0)])
+            x0_changed = lambda: (vhash(x0), repr(common.sdesc(x0)), [id(l) for l in common.leaves(x0)]) != hx0
             mode = "frozen" if frozen else "writable"
             try:
                 try:
                     vjp, _ = make_vjp(f, x0)
+                    if x0_changed():
+                        return _viol(res, sig, "foreign_write", case, "tracing changed the input container itself (length / leaves): %s" % (common.brief(x0, 200),))
                     outs = []
                     for k in (0, 1, 0, 2, 0):
                         r = vjp(gs[k])
@@ -609,6 +618,8 @@ def c10_container_case(res, case):
                     hv = vhash(v)
                     jvp = make_jvp(f, x0)
                     t1, t2 = jvp(v)[1], jvp(v)[1]
+                    if x0_changed():
+                        return _viol(res, sig, "foreign_write", case, "the input container itself was changed (%s)" % mode)
                     if not bits_equal(t1, t2) or vhash(v) != hv or [vhash(a) for a in foreign] != hashes:
                         return _viol(res, sig, "foreign_write" if vhash(v) != hv else "unstable_repeat", case, "JVP closure (%s)" % mode)
                 except ValueError as e:
@@ -627,7 +638,7 @@ def c10_container_case(res, case):
     _ok(res, dict(sig, seed=case["seed"][1] % 7))
 
 
-C10_TEMPLATES = ["overlapping_slices", "slice_twice", "reverse_and_tail", "slice_of_slice", "list_slices", "dict_values", "index_and_slice", "concat_then_slice", "whole_then_index", "whole_then_index_list", "whole_then_key_dict", "inner_whole_then_index"]
+C10_TEMPLATES = ["list_plus_plain", "plain_plus_list", "tuple_plus_plain", "overlapping_slices", "slice_twice", "reverse_and_tail", "slice_of_slice", "list_slices", "dict_values", "index_and_slice", "concat_then_slice", "whole_then_index", "whole_then_index_list", "whole_then_key_dict", "inner_whole_then_index"]
 
 
 def c10_catalogue_repeat(res, c, rng):
